@@ -42,6 +42,10 @@ import MagpyVerif.Lemmas.MeshOrient
 import MagpyVerif.Lemmas.TrimeshInside
 import MagpyVerif.Lemmas.TrimeshTetra
 import MagpyVerif.Lemmas.MeshIntersect
+import MagpyVerif.Lemmas.MeshPerm
+import MagpyVerif.Lemmas.TrianglePerm
+import MagpyVerif.Lemmas.TrimeshWinding
+import MagpyVerif.Lemmas.TrimeshSum
 namespace MagpyVerif.C16
 open MagpyVerif.Mesh
 
@@ -851,4 +855,312 @@ example : (1, 0) ∈ dirEdges ((fixOrientation (fun _ => false) [(0, 1, 2), (0, 
   shared_edge_traversed_oppositely (fun _ => false) [(0, 1, 2), (0, 1, 3), (0, 2, 3), (1, 2, 3)]
     (fun i => [false, true, false, true].getD i false) ((conflict_iff _ _).mp (by decide))
     0 1 (by decide) (by decide) (by decide) 0 1 (by decide) (Or.inr (by decide))
+end MagpyVerif.C16
+
+/-! ## "the field does not depend on the order of faces, the winding of individual faces or the numbering of vertices"
+
+The chain that `TriangularMesh` runs is modelled in Model/MeshPipeline.lean (`meshArray` = `vertices[faces]`, `seedOf` = the
+seed call `is_facet_inwards(msh[indices[0]], msh[indices])`, `fixTrimeshOrientation`, `reorientedMesh`, `facesSubsets`) and tied by
+the `meshperm` stream, which compares model and real code on VARIANTS of the same mesh (faces permuted, windings rotated /
+flipped, vertices renumbered). -/
+
+namespace MagpyVerif.C16
+open MagpyVerif.Mesh MagpyVerif.Kern
+
+/-! ### (1a) order of the faces -/
+
+theorem sum3_perm {l1 l2 : List (V3 ℝ)} (h : l1.Perm l2) : sum3 l1 = sum3 l2 := by
+  unfold sum3
+  exact h.foldl_eq' (fun x _ y _ z => by apply V3.ext' <;> simp <;> ring) _
+
+/-- the sum of the triangle sheets of one row (`BHJM.reshape((n0, n1, 3)).sum(axis=1)` / the `np.split` sums) does not depend on
+the order of the faces -/
+theorem trimesh_sheets_face_perm (r1 r2 : MeshRow ℝ) (hf : r1.faces.Perm r2.faces) (ho : r1.obs = r2.obs) (hp : r1.pol = r2.pol) :
+    meshRowSheets r1 = meshRowSheets r2 := by
+  unfold meshRowSheets
+  rw [ho, hp]
+  exact sum3_perm (hf.map _)
+
+/-- the ray test counts crossings: the number of crossed faces (hence its parity) and the "any face touched" flag are functions
+of the MULTISET of faces -/
+theorem crossing_count_face_perm (l0 l1 : V3 ℝ) {f1 f2 : List (Tri ℝ)} (hp : f1.Perm f2) :
+    (f1.map (faceTest l0 l1)).countP (·.1) = (f2.map (faceTest l0 l1)).countP (·.1) ∧
+    (f1.map (faceTest l0 l1)).any (·.2) = (f2.map (faceTest l0 l1)).any (·.2) :=
+  ⟨(hp.map _).countP_eq _, (hp.map _).any_eq⟩
+
+/-- **`trimesh_field_face_perm`** — `BHJM_magnet_trimesh` (all four fields; the flat kernel call, the reshape / split sums, the row
+grouping loop, the inside test `mask_inside_trimesh` with its bounding box, mesh size, ray start and crossing count) gives the same
+output when the faces of every row's mesh are listed in a different order.  No hypothesis on the meshes (closed or not). -/
+theorem trimesh_field_face_perm [DecidableEq (List (Tri ℝ))] (f : Field) (rows1 rows2 : List (MeshRow ℝ))
+    (h : List.Forall₂ (fun r1 r2 => r1.faces.Perm r2.faces ∧ r1.obs = r2.obs ∧ r1.pol = r2.pol) rows1 rows2) :
+    bhjmTrimesh f (·.faces) maskInsideTrimesh rows1 = bhjmTrimesh f (·.faces) maskInsideTrimesh rows2 := by
+  rw [bhjmTrimesh_rowwise, bhjmTrimesh_rowwise]
+  induction h with
+  | nil => rfl
+  | @cons r1 r2 _ _ hr _ ih =>
+    obtain ⟨hf, ho, hp⟩ := hr
+    rw [List.map_cons, List.map_cons, ih]
+    congr 1
+    have hs := trimesh_sheets_face_perm r1 r2 hf ho hp
+    have hi : maskInsideTrimesh r1.faces r1.obs = maskInsideTrimesh r2.faces r2.obs := by
+      rw [ho]; exact maskInsideTrimesh_perm hf _
+    cases f <;> simp only [bhjmTrimeshRow, hs, hi, hp]
+
+-- non-vacuity: the unit tetrahedron with its faces in reverse order, observer (1/4,1/4,1/4) (inside: B = sheets + J)
+example [DecidableEq (List (Tri ℝ))] (pol : V3 ℝ) :
+    bhjmTrimesh .B (·.faces) maskInsideTrimesh [⟨unitTetra.reverse, ⟨1 / 4, 1 / 4, 1 / 4⟩, pol⟩] =
+      bhjmTrimesh .B (·.faces) maskInsideTrimesh [⟨unitTetra, ⟨1 / 4, 1 / 4, 1 / 4⟩, pol⟩] :=
+  trimesh_field_face_perm .B _ _ (.cons ⟨List.reverse_perm _, rfl, rfl⟩ .nil)
+
+/-! ### (1b) the Triangle kernel under a relabelling of its vertices -/
+
+/-- **`triangle_field_cyclic`** — `triangle_Bfield` (the whole closed form: normal, charge, the three edge integrals with all their
+branches, the solid angle with its clamp, the zero-area mask) is unchanged when the vertices are rotated `(v0, v1, v2) → (v1, v2, v0)`:
+for every triangle, polarization and observer. -/
+theorem triangle_field_cyclic (v0 v1 v2 pol obs : V3 ℝ) : triangleB v1 v2 v0 pol obs = triangleB v0 v1 v2 pol obs :=
+  triangleB_cyclic v0 v1 v2 pol obs
+
+/-- **`triangle_field_flip`** — exchanging two vertices (reversing the winding) negates `triangle_Bfield`, for every triangle
+(with or without area), every polarization and every observer that is not within the code's `on_edge` tolerance of one of the three
+edges (`TriOffEdges`: `rho2 ≤ 1e-30·l2 ∧ a < 0 < c` is false for each edge).
+/- FULL: without `TriOffEdges`.  False of the code: in the `on_edge` branch the divergent edge integral is replaced by `log(-a/c)/l`,
+   which changes sign when the edge is run backwards (`triangle_edge_on_edge_changes_sign`), while the true integral does not
+   (`triangle_edge_integral_reverse`); so for an observer ON an edge the flipped triangle's field is not the negative. -/ -/
+theorem triangle_field_flip (v0 v1 v2 pol obs : V3 ℝ) (hoff : TriOffEdges v0 v1 v2 obs) :
+    triangleB v0 v2 v1 pol obs = -triangleB v0 v1 v2 pol obs :=
+  triangleB_flip v0 v1 v2 pol obs hoff
+
+/-- the parts of `triangle_field_flip`: the edge integral `I` is the same for the edge run backwards (off the edge) … -/
+theorem triangle_edge_integral_reverse (R L : V3 ℝ) (hL : 0 < V3.dot L L) (hoff : ¬ TriEdgeOnV R (R + L) L) :
+    triEdgeI (R + L) R (-L) = triEdgeI R (R + L) L :=
+  triEdgeI_reverse R (R + L) L (-L) rfl rfl hL hoff
+
+/-- … within the `on_edge` tolerance it changes sign (so `triangle_field_flip` needs its hypothesis) … -/
+theorem triangle_edge_on_edge_changes_sign (R L : V3 ℝ) (hon : TriEdgeOnV R (R + L) L) :
+    triEdgeI (R + L) R (-L) = -triEdgeI R (R + L) L :=
+  triEdgeI_reverse_on R (R + L) L (-L) rfl rfl hon
+
+/-- … and the solid angle (with the clamp `|2·arctan2| > 6.2831853 → 0`, which is what makes this hold on the triangle's plane
+outside the triangle, where `arctan2(±0, D < 0) = ±π`) changes sign -/
+theorem triangle_solid_angle_flip (R0 R1 R2 : V3 ℝ) (r0 r1 r2 : ℝ) :
+    solidAngle R0 R2 R1 r0 r2 r1 = -solidAngle R0 R1 R2 r0 r1 r2 :=
+  solidAngle_flip R0 R1 R2 r0 r1 r2
+
+-- non-vacuity: the triangle (0,0,0), (1,0,0), (0,1,0) and the observer (0,0,1) are off all three edges
+example : TriOffEdges (⟨0, 0, 0⟩ : V3 ℝ) ⟨1, 0, 0⟩ ⟨0, 1, 0⟩ ⟨0, 0, 1⟩ := by
+  refine ⟨?_, ?_, ?_⟩ <;> simp only [TriEdgeOnV, triEdgeOn, V3.dot, V3.cross, V3.sub_x, V3.sub_y, V3.sub_z] <;> norm_num
+
+-- non-vacuity of the exclusion: the observer (1/2,0,0) on the edge (0,0,0)–(1,0,0) is in the `on_edge` branch
+example : TriEdgeOnV ((⟨0, 0, 0⟩ : V3 ℝ) - ⟨1 / 2, 0, 0⟩) ((⟨0, 0, 0⟩ : V3 ℝ) - ⟨1 / 2, 0, 0⟩ + ⟨1, 0, 0⟩) ⟨1, 0, 0⟩ := by
+  simp only [TriEdgeOnV, triEdgeOn, V3.dot, V3.cross, V3.sub_x, V3.sub_y, V3.sub_z, V3.add_x, V3.add_y, V3.add_z]
+  norm_num
+
+/-- a cyclic rotation of a face -/
+def triRot (t : Tri ℝ) : Tri ℝ := (t.2.1, t.2.2, t.1)
+
+/-- the sum of the triangle sheets of a mesh does not depend on which vertex each face starts with -/
+theorem trimesh_sheets_rotation (faces faces' : List (Tri ℝ)) (obs pol : V3 ℝ)
+    (h : List.Forall₂ (fun t t' => t' = t ∨ t' = triRot t ∨ t' = triRot (triRot t)) faces faces') :
+    meshRowSheets ⟨faces', obs, pol⟩ = meshRowSheets ⟨faces, obs, pol⟩ := by
+  unfold meshRowSheets
+  congr 1
+  simp only
+  induction h with
+  | nil => rfl
+  | cons ht _ ih =>
+    rw [List.map_cons, List.map_cons, ih]
+    congr 1
+    rcases ht with rfl | rfl | rfl
+    · rfl
+    · exact triangle_field_cyclic _ _ _ _ _
+    · simp only [triRot]
+      rw [triangle_field_cyclic, triangle_field_cyclic]
+
+/-! ### (1c) numbering of the vertices -/
+
+section renumbering
+variable {α : Type} [Num α]
+
+/-- **`vertex_renumbering`** — for ANY carrier (also the driver's IEEE doubles): renumber the vertices by an injective `σ` (faces mapped
+through `σ`, the vertex table rearranged accordingly: `verts'[σ i] = verts[i]`).  Then
+(1) `vertices[faces]` is the IDENTICAL `(n, 3, 3)` array; (2) `get_inwards_mask` returns the identical mask (its seed calls
+`is_facet_inwards(msh[indices[0]], msh[indices])` see identical arrays), `fix_trimesh_orientation` returns the renumbered faces, and
+the mesh after `reorient_faces()` is the IDENTICAL array — so everything downstream (`BHJM_magnet_trimesh`, the inside test) is;
+(3) `get_disconnected_faces_subsets` returns the renumbered face subsets, in the same order (also `subsets_inds`);
+(4) `get_open_edges` reports the renumbered (re-sorted) edges. -/
+theorem vertex_renumbering {σ : Nat → Nat} (hσ : Function.Injective σ) (verts verts' : List (V3 α))
+    (hren : Renumbered σ verts verts') (faces : List Face) (hf : ∀ f ∈ faces, FaceInRange verts.length f) :
+    meshArray verts' (faces.map (mapFace σ)) = meshArray verts faces ∧
+    getInwardsMask verts' (faces.map (mapFace σ)) = getInwardsMask verts faces ∧
+    fixTrimeshOrientation verts' (faces.map (mapFace σ)) = (fixTrimeshOrientation verts faces).map (mapFace σ) ∧
+    reorientedMesh verts' (faces.map (mapFace σ)) = reorientedMesh verts faces ∧
+    facesSubsets (faces.map (mapFace σ)) = (facesSubsets faces).map (List.map (mapFace σ)) ∧
+    subsets ((faces.map (mapFace σ)).length + 1) (faces.map (mapFace σ)) = (subsets (faces.length + 1) faces).map (List.map σ) ∧
+    ∀ e : Edge, e.1 ≤ e.2 → (mapEdge σ e ∈ openEdges (faces.map (mapFace σ)) ↔ e ∈ openEdges faces) :=
+  ⟨meshArray_renumber hren faces hf, getInwardsMask_renumber hσ hren faces hf, fixTrimeshOrientation_renumber hσ hren faces hf,
+    reorientedMesh_renumber hσ hren faces hf, facesSubsets_map hσ faces, by rw [List.length_map]; exact subsets_map hσ _ faces,
+    fun e he => open_invariant_under_renumbering hσ faces e he⟩
+
+/-- the sweep itself, for any seed test: `get_inwards_mask` / `fix_trimesh_orientation` on index triples commute with renumbering -/
+theorem orientation_sweep_renumbering {σ : Nat → Nat} (hσ : Function.Injective σ) (seed : List Nat → Bool) (tris : List Face) :
+    inwardsMask seed (tris.map (mapFace σ)) = inwardsMask seed tris ∧
+    fixOrientation seed (tris.map (mapFace σ)) = (fixOrientation seed tris).map (mapFace σ) :=
+  ⟨inwardsMask_map hσ seed tris, fixOrientation_map hσ seed tris⟩
+
+-- non-vacuity: vertices 0 and 1 of a four-vertex table exchanged
+example (a b c d : V3 α) : Function.Injective (Equiv.swap (0 : Nat) 1) ∧
+    Renumbered (Equiv.swap (0 : Nat) 1) [a, b, c, d] [b, a, c, d] ∧
+    ∀ f ∈ ([(0, 1, 2), (0, 1, 3), (0, 2, 3), (1, 2, 3)] : List Face), FaceInRange ([a, b, c, d] : List (V3 α)).length f := by
+  refine ⟨(Equiv.swap 0 1).injective, ?_, ?_⟩
+  swap
+  · intro f hf
+    simp only [List.mem_cons, List.not_mem_nil, or_false] at hf
+    rcases hf with rfl | rfl | rfl | rfl <;> simp [FaceInRange]
+  intro i hi
+  simp only [List.length_cons, List.length_nil] at hi
+  have h2 : (Equiv.swap (0 : Nat) 1) 2 = 2 := Equiv.swap_apply_of_ne_of_ne (by decide) (by decide)
+  have h3 : (Equiv.swap (0 : Nat) 1) 3 = 3 := Equiv.swap_apply_of_ne_of_ne (by decide) (by decide)
+  interval_cases i
+  · rw [Equiv.swap_apply_left]; rfl
+  · rw [Equiv.swap_apply_right]; rfl
+  · rw [h2]; rfl
+  · rw [h3]; rfl
+
+end renumbering
+
+/-! ### (1d) winding of the faces as given -/
+
+/-- **`reorient_invariant_under_input_flips`** (index level, seed test as a parameter) — `tris` orientable (`Consistent tris ρ` for
+some `ρ`) and edge-connected (every face reachable from face 0 through shared edges: one body).  Hand the same mesh over with any
+subset `φ` of its faces flipped.  If the seed verdict is geometric — the first seed test answers for the flipped seed face the
+opposite of what it answers for the unflipped one (`seed' = seed xor φ 0`) — `fix_trimesh_orientation` returns THE SAME list of
+faces (same windings, same first vertices, same order). -/
+theorem reorient_invariant_under_input_flips_index (tris : List Face) (ρ : Nat → Bool) (hρ : Consistent tris ρ)
+    (hc : EdgeConnected tris) (seed seed' : List Nat → Bool) (φ : Nat → Bool)
+    (hgeo : seed' (List.range tris.length) = (seed (List.range tris.length) ^^ φ 0)) :
+    fixOrientation seed' (flipBy φ tris) = fixOrientation seed tris :=
+  fixOrientation_flipBy hρ hc seed seed' φ hgeo
+
+/-- … and what that list is: face `i` is flipped iff `ρ i xor ρ 0 xor (verdict of the first seed test)` — the reference
+orientation normalised at the seed face -/
+theorem reorient_mask_characterised (tris : List Face) (ρ : Nat → Bool) (hρ : Consistent tris ρ) (hc : EdgeConnected tris)
+    (seed : List Nat → Bool) (i : Nat) (hi : i < tris.length) :
+    (inwardsMask seed tris).getD i false = (ρ i ^^ (ρ 0 ^^ seed (List.range tris.length))) :=
+  inwardsMask_eq_of_connected hρ hc seed i hi
+
+/-- the consistent orientation of an edge-connected mesh is unique up to flipping all faces (what makes the seed face decide) -/
+theorem consistent_orientation_unique (tris : List Face) (ρ ρ' : Nat → Bool) (h : Consistent tris ρ) (h' : Consistent tris ρ')
+    (hc : EdgeConnected tris) (i : Nat) (hi : i < tris.length) : ρ' i = (ρ i ^^ (ρ 0 ^^ ρ' 0)) :=
+  consistent_unique h h' hc i hi
+
+/-- **`reorient_idempotent`** — reorienting the reoriented faces changes nothing, provided the second run's seed test finds the
+(reoriented) seed face outwards -/
+theorem reorient_idempotent_index (tris : List Face) (ρ : Nat → Bool) (hρ : Consistent tris ρ) (hc : EdgeConnected tris)
+    (seed seed' : List Nat → Bool) (hgeo : seed' (List.range tris.length) = false) :
+    fixOrientation seed' (fixOrientation seed tris) = fixOrientation seed tris :=
+  fixOrientation_idem hρ hc seed seed' hgeo
+
+section windingPipeline
+variable {α : Type} [Num α]
+
+/-- **`reorient_invariant_under_input_flips`** on the modelled pipeline (any carrier): the seed test is the real one,
+`is_facet_inwards(msh[0], msh)` on `vertices[faces]`.  If its verdict for the mesh given with the faces `φ` flipped is the verdict
+for the mesh as it is, negated iff the seed face itself is among the flipped ones (the check point then lies on the other side of the
+facet: a GEOMETRIC fact about the ray test, hypothesis), then the reoriented faces and the `(n, 3, 3)` mesh are identical — hence so
+is the field. -/
+theorem reorient_invariant_under_input_flips (verts : List (V3 α)) (faces : List Face) (ρ : Nat → Bool) (hρ : Consistent faces ρ)
+    (hc : EdgeConnected faces) (φ : Nat → Bool)
+    (hgeo : seedOf (meshArray verts (flipBy φ faces)) (List.range faces.length) =
+      (seedOf (meshArray verts faces) (List.range faces.length) ^^ φ 0)) :
+    fixTrimeshOrientation verts (flipBy φ faces) = fixTrimeshOrientation verts faces ∧
+    reorientedMesh verts (flipBy φ faces) = reorientedMesh verts faces := by
+  have h := fixOrientation_flipBy hρ hc (seedOf (meshArray verts faces)) (seedOf (meshArray verts (flipBy φ faces))) φ hgeo
+  exact ⟨h, by simp only [reorientedMesh, fixTrimeshOrientation, h]⟩
+
+/-- **`reorient_idempotent`** on the modelled pipeline: a second `reorient_faces()` whose seed test finds face 0 outwards returns
+the same faces and the same mesh -/
+theorem reorient_idempotent (verts : List (V3 α)) (faces : List Face) (ρ : Nat → Bool) (hρ : Consistent faces ρ)
+    (hc : EdgeConnected faces)
+    (hgeo : seedOf (meshArray verts (fixTrimeshOrientation verts faces)) (List.range faces.length) = false) :
+    fixTrimeshOrientation verts (fixTrimeshOrientation verts faces) = fixTrimeshOrientation verts faces ∧
+    reorientedMesh verts (fixTrimeshOrientation verts faces) = reorientedMesh verts faces := by
+  have h := fixOrientation_idem hρ hc (seedOf (meshArray verts faces)) (seedOf (meshArray verts (fixTrimeshOrientation verts faces))) hgeo
+  have h' : fixTrimeshOrientation verts (fixTrimeshOrientation verts faces) = fixTrimeshOrientation verts faces := h
+  exact ⟨h', by simp only [reorientedMesh, h']⟩
+
+end windingPipeline
+
+/-- the tetrahedron's four faces are edge-connected -/
+theorem tetra_edgeConnected : EdgeConnected [(0, 1, 2), (0, 1, 3), (0, 2, 3), (1, 2, 3)] := by
+  intro i hi
+  simp only [List.length_cons, List.length_nil] at hi
+  interval_cases i
+  · exact Relation.ReflTransGen.refl
+  · exact Relation.ReflTransGen.single ⟨by decide, by decide, (0, 1), by decide, by decide⟩
+  · exact Relation.ReflTransGen.single ⟨by decide, by decide, (0, 2), by decide, by decide⟩
+  · exact Relation.ReflTransGen.single ⟨by decide, by decide, (1, 2), by decide, by decide⟩
+
+-- non-vacuity: the tetrahedron (faces 1 and 3 wound against the others) is orientable and edge-connected; given with faces 0 and 2
+-- flipped and a seed test that answers accordingly, the sweep returns the same faces
+example : fixOrientation (fun _ => true) (flipBy (fun i => i == 0 || i == 2) [(0, 1, 2), (0, 1, 3), (0, 2, 3), (1, 2, 3)]) =
+    fixOrientation (fun _ => false) [(0, 1, 2), (0, 1, 3), (0, 2, 3), (1, 2, 3)] :=
+  reorient_invariant_under_input_flips_index _ (fun i => [false, true, false, true].getD i false) ((conflict_iff _ _).mp (by decide))
+    tetra_edgeConnected _ _ _ (by decide)
+example : fixOrientation (fun _ => false) [(0, 1, 2), (0, 1, 3), (0, 2, 3), (1, 2, 3)] = [(0, 1, 2), (0, 3, 1), (0, 2, 3), (1, 3, 2)] := by decide
+example : fixOrientation (fun _ => false) (fixOrientation (fun _ => false) [(0, 1, 2), (0, 1, 3), (0, 2, 3), (1, 2, 3)]) =
+    fixOrientation (fun _ => false) [(0, 1, 2), (0, 1, 3), (0, 2, 3), (1, 2, 3)] :=
+  reorient_idempotent_index _ (fun i => [false, true, false, true].getD i false) ((conflict_iff _ _).mp (by decide))
+    tetra_edgeConnected _ _ rfl
+-- the edge-connectedness hypothesis matters: two tetrahedra touching in vertex 0 need a second seed, whose verdict is not tied to
+-- the first one's — with the second body's seed answering differently the returned faces differ
+example : fixOrientation (fun idx => idx.length == 4) [(0, 1, 2), (0, 1, 3), (0, 2, 3), (1, 2, 3), (0, 4, 5), (0, 4, 6), (0, 5, 6), (4, 5, 6)] ≠
+    fixOrientation (fun _ => false) [(0, 1, 2), (0, 1, 3), (0, 2, 3), (1, 2, 3), (0, 4, 5), (0, 4, 6), (0, 5, 6), (4, 5, 6)] := by decide
+
+/-! ### (2) the final face selection of `get_disconnected_faces_subsets` -/
+
+/-- **`disconnected_faces_selection`** — what `get_disconnected_faces_subsets` RETURNS (`faces[np.isin(faces, list(ps)).all(axis=1)]`
+for every vertex subset `ps`, modelled by `facesSubsets`): every face of the mesh lies in exactly one returned subset, the returned
+subsets concatenated are a rearrangement of the face list (each face once, with its multiplicity), each subset keeps the order
+of the face list, and there is one face subset per vertex subset (`subsets_are_vertex_connected_components`). -/
+theorem disconnected_faces_selection (faces : List Face) :
+    (∀ f ∈ faces, ∃! i : Fin (facesSubsets faces).length, f ∈ (facesSubsets faces)[i]) ∧
+    (facesSubsets faces).flatten.Perm faces ∧
+    (∀ fs ∈ facesSubsets faces, fs.Sublist faces) ∧
+    (facesSubsets faces).length = (subsets (faces.length + 1) faces).length :=
+  ⟨fun f hf => face_in_exactly_one_subset faces f hf, facesSubsets_flatten_perm faces, facesSubsets_sublist faces,
+    by simp [facesSubsets]⟩
+
+/-- hence no returned face subset is empty and their sizes add up to the number of faces -/
+theorem disconnected_faces_sizes (faces : List Face) :
+    ((facesSubsets faces).map List.length).sum = faces.length := by
+  have := (facesSubsets_flatten_perm faces).length_eq
+  rwa [List.length_flatten] at this
+
+example : facesSubsets [(0, 1, 2), (3, 4, 5), (2, 6, 7), (5, 8, 9)] = [[(0, 1, 2), (2, 6, 7)], [(3, 4, 5), (5, 8, 9)]] := by decide
+
+end MagpyVerif.C16
+
+namespace MagpyVerif.C16
+open MagpyVerif.Kern
+
+/-- C16 (`lines_end_in_trimesh`, the crossing part): whether a test line counts as crossing a face (`result_cross`: the line passes
+through the triangle or its boundary tolerance, and its end points lie on different sides of the face's plane) does not depend on how
+the three corners of the face are listed (six windings) — for every line and face -/
+theorem crossing_winding_invariant (l0 l1 : V3 ℝ) (f g : Tri ℝ) (h : g ∈ triWindings f) :
+    (faceTest l0 l1 g).1 = (faceTest l0 l1 f).1 :=
+  faceTest_cross_winding l0 l1 f g h
+
+/-- … hence the number of crossed faces, whose parity is the inside verdict `inside1`, is the same for a mesh given with other
+windings.
+/- FULL: `maskInsideTrimesh` itself is winding invariant.  False of the code in a thin layer: the second verdict `inside2` (touch:
+   `|proj1| < 1e-7`, the projection normalised by the distance from the face's LAST corner, `faces[:, 2]`) changes with the corner
+   order — unit tetrahedron, observer 5e-8 outside the face x+y+z = 1 near the corner (1,0,0): outside if that corner is listed
+   last, "inside" (B gets +J) otherwise (reproduced on the real class). -/ -/
+theorem crossing_count_winding_invariant (l0 l1 : V3 ℝ) (f1 f2 : List (Tri ℝ))
+    (h : List.Forall₂ (fun f g => g ∈ triWindings f) f1 f2) :
+    (f2.map (faceTest l0 l1)).countP (·.1) = (f1.map (faceTest l0 l1)).countP (·.1) :=
+  crossCount_winding l0 l1 f1 f2 h
+
+example (t : Tri ℝ) : triFlip t ∈ triWindings t := by simp [triWindings]
+
 end MagpyVerif.C16
